@@ -327,12 +327,11 @@ struct SendGuard {
 impl Drop for SendGuard {
     fn drop(&mut self) {
         let mut g = self.ctl.inner.lock().unwrap();
+        // (the `sent` event was logged when the send lock was taken, i.e. before the message could be received)
         let t = &mut g.tasks[self.id];
         t.stat = TStat::Sent;
-        let ev = json!({"e": "sent", "k": t.kind, "f": t.file, "first": t.first, "r": t.result, "t": t.id});
         g.sent += 1;
         g.send_busy = false;
-        self.ctl.push(&mut g, ev);
         self.ctl.cv.notify_all();
     }
 }
@@ -360,9 +359,9 @@ impl Controller for Handle {
         g.total = total;
         c.push(&mut g, json!({"e": "spawn", "k": kind, "f": file, "first": first, "total": total, "t": id}));
         c.cv.notify_all();
-        if g.tasks.len() > 3000 {
+        if g.tasks.len() > 400 {
             // no project of the harness needs that many tasks: the coordinator spawns without end
-            g.problem.get_or_insert("hang: runaway spawning (more than 3000 tasks)".into());
+            g.problem.get_or_insert("hang: runaway spawning (more than 400 tasks)".into());
             c.push(&mut g, json!({"e": "hang", "done": 0, "total": total}));
             g.drain = true;
             c.cv.notify_all();
@@ -440,6 +439,10 @@ impl Controller for Handle {
         }
         g.send_busy = true;
         g.tasks[id].stat = TStat::Sending;
+        // logged while holding the send lock and before the send itself: the order of `sent` events is the channel order
+        // and no `recv` of this message can be logged earlier
+        let ev = json!({"e": "sent", "k": kind, "f": file, "first": first, "r": result, "t": id});
+        c.push(&mut g, ev);
         drop(g);
         unregister_thread();
         Some(Box::new(SendGuard { ctl: c.clone(), id }))
